@@ -140,8 +140,7 @@ theorem stringPrefix_spec {cs : List Nat} {a b c d : Bool} {r : List Nat}
        · simp)
     | (refine ⟨[c1, c2], rfl, ?_, ?_⟩
        · intro x hx; simp at hx; rcases hx with rfl | rfl <;> omega
-       · simp)
-    | (trace_state; sorry))
+       · simp))
 
 
 theorem lexString_spec {cs : List Nat} {t : Tok} {r : List Nat} (h : lexString cs = some (t, r)) :
